@@ -222,6 +222,33 @@ func HarnessC10_Batch() {
 			}
 		}
 		c.release <- out
+		// with "pair" a second replica call completes before the first one's
+		// bookkeeping has run: their record() calls overlap (only meaningful
+		// together with a preemption bound)
+		if vfParam("pair", 0) == 1 && len(pending) > 1 && vfChoice("pair", 2) == 1 {
+			c2 := pending[(a+1+vfChoice("second", len(pending)-1))%len(pending)]
+			var out2 error
+			switch vfChoice("outcome", 3) {
+			case 1:
+				out2 = vfErrClient
+				sawClient = true
+			case 2:
+				out2 = vfErrServer
+				sawServer = true
+			}
+			for _, k := range c2.indexes {
+				answered[k]++
+				switch out2 {
+				case nil:
+					oks[k]++
+				case vfErrClient:
+					cf[k]++
+				default:
+					sf[k]++
+				}
+			}
+			c2.release <- out2
+		}
 		vfQuiesce()
 		check()
 	}
